@@ -33,6 +33,18 @@ def check_C12(run):
                            "values and recorded as flags next to both tree dumps; TLC evaluates the clauses and compares the dumps; 'inferable' is the "
                            "property's own exception list evaluated on per-leaf textual facts (contains * or ?, slash-delimited, integer-valued float)")
     stage_mc_parser(run, 3, FULL_ALPHABET, emit=False)
+    # the codec MECH (ExprJson.tla) against the REF of C12 (RoundTrip.tla): every small tree x every combination of leaf facts
+    d = run.sub("mc_exprjson")
+    out, rc, secs = run.tlc(d, "MC_ExprJson", "SPECIFICATION Spec\nINVARIANTS InferableRoundTrips Idempotent\nCHECK_DEADLOCK FALSE\n", workers=4, timeout=600)
+    gen, dist = run.tlc_stats(out)
+    err = run.tlc_error(out)
+    run.states += dist
+    run.transitions += gen
+    run.stage("mc_exprjson", trees=dist, invariants=["InferableRoundTrips", "Idempotent"], error=err, secs=round(secs, 1))
+    if dist == 0:
+        raise Broken("MC_ExprJson produced no states: " + out[-500:])
+    if err:
+        run.notes.append("MODEL: TLC reported '%s' on the codec model; verdicts still come from the real code" % err)
     kinds = checks_parser.DEEP_KINDS + ["feqifloat", "feqempty", "barefloat"]
     if run.tier == "quick":
         cases, g = stage_gen_trees(run, ["bare", "feq", "feqq", "fwild", "frange", "flist"], 2, ws=0)
